@@ -16,7 +16,7 @@ let split_op (s : string) : string * int list =
     (String.sub s 0 i, List.map int_of_string (split_on ',' inner))
   | None -> (s, [])
 
-let parse_op (name : string) (a : int list) : nat op =
+let parse_op (name : string) (a : int list) =
   let a0 () = i2n (List.nth a 0) in
   match name with
   | "set" -> WSet (a0 ()) | "take" -> WTake | "update" -> WUpdate (a0 ())
